@@ -455,6 +455,11 @@ func c09Strata() []*gast.Grammar {
 			r("T", gast.Rec(gast.A(gast.Lab("v", gast.Ref("N")), 2, mon.Spec{R: 3}), gast.Star(gast.Dot()), "L1")), r("N", gast.A(gast.Plus(gast.Cl(&gast.ClassSpec{Ranges: [][2]rune{{'0', '9'}}})), 3, mon.Spec{R: 2}))),
 		mk(r("S", gast.A(gast.S(gast.Lab("v", gast.Ref("N")), gast.Star(gast.S(gast.L(","), gast.Ref("T"))), gast.Lab("w", gast.Opt(gast.Ref("T")))), 1, mon.Spec{})),
 			r("T", gast.Rec(gast.S(gast.Lab("v", gast.Cl(gast.Chars("ab"))), gast.Lab("w", gast.C(gast.L("!"), gast.Thr("L1")))), gast.A(gast.Lab("v", gast.L("?")), 2, mon.Spec{}), "L1")), r("N", gast.A(gast.Plus(gast.Cl(&gast.ClassSpec{Ranges: [][2]rune{{'0', '9'}}})), 3, mon.Spec{R: 2}))),
+		// a leaf rule of the form  #{state change} e {action}  referenced bare in a sequence whose later
+		// element fails, inside the body of * + ? (inlining puts the action expression itself there): the
+		// change of the abandoned iteration is rolled back as it is without the optimizer
+		mk(r("S", gast.S(gast.St(9, mon.Spec{S: 1}), gast.Star(gast.S(gast.Ref("It"), gast.L(","))), gast.Opt(gast.S(gast.Ref("It"), gast.L(";"))), gast.Plus(gast.C(gast.S(gast.Ref("It"), gast.L("!")), gast.Cl(gast.Chars("ab,;")))), gast.AndC(8, mon.Spec{}), gast.Star(gast.Dot()))),
+			r("It", gast.A(gast.S(gast.St(7, mon.Spec{S: 1 | 2}), gast.Plus(gast.Cl(gast.Chars("ab")))), 1, mon.Spec{R: 2}))),
 		// a class with one listed character AND Unicode classes next to literals (directly and through
 		// inlined leaf rules): it is not a one-character matcher
 		mk(r("S", gast.Star(gast.C(act(gast.S(gast.L("$"), gast.Cl(&gast.ClassSpec{Chars: []rune("_"), UClasses: []string{"L"}}), gast.Star(gast.Cl(&gast.ClassSpec{Chars: []rune("_"), UClasses: []string{"L", "Nd"}}))), 1),
